@@ -75,20 +75,25 @@ impl<'a> Autocompletion<'a> {
             None => autocompletion.len(),
         };
 
-        if len > self.buffer.len() {
-            // if buffer is full with this autocompletion, there is not much sense in doing it
-            // since user will not be able to type anything else
-            // so just do nothing with it
-        } else {
-            self.partial =
-                self.partial || len < autocompletion.len() || self.autocompleted.is_some();
-            // SAFETY: we checked that len is no longer than buffer len (and is at most autocompleted len)
-            // and these two buffers do not overlap since mutable reference to buffer is exclusive
-            unsafe {
-                utils::copy_nonoverlapping(autocompletion.as_bytes(), self.buffer, len);
+        // if autocompletion doesn't fit, keep only whole chars that fit
+        // (such autocompletion is always partial)
+        let len = if len > self.buffer.len() {
+            let mut fit = self.buffer.len();
+            while !autocompletion.is_char_boundary(fit) {
+                fit -= 1;
             }
-            self.autocompleted = Some(len);
+            fit
+        } else {
+            len
         };
+
+        self.partial = self.partial || len < autocompletion.len() || self.autocompleted.is_some();
+        // SAFETY: len is no longer than buffer len (and is at most autocompleted len)
+        // and these two buffers do not overlap since mutable reference to buffer is exclusive
+        unsafe {
+            utils::copy_nonoverlapping(autocompletion.as_bytes(), self.buffer, len);
+        }
+        self.autocompleted = Some(len);
     }
 }
 
